@@ -192,9 +192,18 @@ func cliMain() int {
 		g.chaos = 5
 		g.noPrint = false
 		script := g.program(g.r.Intn(2), 1+g.r.Intn(4), 2)
+		// every kind of JSON value is looked at with its type, in arithmetic, in a condition and in a loop
+		fixedCli := []string{"return [Count, Big, Score, type(Count), type(Big), type(Score)];", "return Count + 1;", "if (Big > 100) { return Score * 2; } return Count - 1;",
+			"return [type(Name), type(Flag), type(Off), type(Tags), type(Nums), type(Nested), type(Nothing), type(Missing)];", "t = 0; foreach n in Nums { t = t + n; } return [t, len(Nums), len(Tags)];",
+			"return Nested.n + 1;", "return [Flag && !Off, Name + \"!\", len(Name)];", "return Count == 0 || Score == 0.5 || Big == 65535;"}
+		if i < len(fixedCli) {
+			script = fixedCli[i]
+		}
 		switch i % 10 {
 		case 7:
-			script = randText(r, r.Intn(30)) // arbitrary text
+			if i >= len(fixedCli) {
+				script = randText(r, r.Intn(30)) // arbitrary text
+			}
 		case 8:
 			script = "while (true) { }"
 		case 9:
